@@ -162,7 +162,20 @@ var c12Constructs = []c12construct{
 		return one(m, "{% set c %}[1:{{ x }}]{% endset %}{{ c }}", c12site{id: "1", direct: false})
 	}},
 	{"set-capture-raw", false, func(m, h string) (map[string]string, []c12site) {
-		return one(m, "{% set c %}[1:{{ x }}]{% endset %}{{ c|raw }}", c12site{id: "1", direct: false})
+		// the print inside the capture is escaped once; raw then passes the captured markup through
+		return one(m, "{% set c %}[1:{{ x }}]{% endset %}{{ c|raw }}[2:{{ x }}]", c12site{id: "1", direct: true}, c12site{id: "2", direct: true})
+	}},
+	{"capture-in-loop-raw", false, func(m, h string) (map[string]string, []c12site) {
+		return one(m, "{% for i in [1, 2] %}{% set c %}{% if t %}[1:{{ x }}]{% endif %}{% endset %}{{ c|raw }}{% endfor %}", c12site{id: "1", direct: true})
+	}},
+	{"nested-capture-raw", false, func(m, h string) (map[string]string, []c12site) {
+		return one(m, "{% set o %}{% set c %}[1:{{ x }}]{% endset %}{{ c|raw }}[2:{{ x }}]{% endset %}{{ o|raw }}", c12site{id: "1", direct: true}, c12site{id: "2", direct: true})
+	}},
+	{"macro-raw", false, func(m, h string) (map[string]string, []c12site) {
+		return one(m, "{% macro mm(v) %}[1:{{ v }}]{% endmacro %}{{ _self.mm(x)|raw }}", c12site{id: "1", direct: true})
+	}},
+	{"block-fn-raw", false, func(m, h string) (map[string]string, []c12site) {
+		return one(m, "{% block b %}[1:{{ x }}]{% endblock %}{{ block('b')|raw }}", c12site{id: "1", direct: true})
 	}},
 	{"filter-section", false, func(m, h string) (map[string]string, []c12site) {
 		return one(m, "{% filter trim %} [1:{{ x }}] {% endfilter %}", c12site{id: "1", direct: false})
@@ -552,7 +565,7 @@ func (p *c12) Run(i int) (res fw.Result) {
 				}
 			}
 			// safety over the whole output when every template involved has one content type
-			if !mixed && !safeSame && con.name != "raw" && con.name != "set-capture-raw" {
+			if !mixed && !safeSame && con.name != "raw" {
 				if ok, ch := inertFor(expectedType(main), out); !ok {
 					res.Fail("unsafe-output", key, fmt.Sprintf("output %q contains %q, which is significant for content type %q and can only come from the data", clip(out, 300), ch, expectedType(main)), in)
 				}
